@@ -521,7 +521,7 @@ def arith_singular_cases(ck):
         for a, b in sel:
             e = "(%s) %s (%s)" % (a, op, b)
             add("arith:src", "compile", "from t | derive x = %s | filter (%s) != 3" % (e, e), target=rng.choice(["sql.generic", "sql.sqlite", "sql.postgres", "sql.mssql", "sql.bigquery"]))
-            add("arith:let", "compile", "let p = %s\nlet q = %s\nfrom t | derive x = p %s q | take (1 + 1)" % (a, b, op), target="sql.generic")
+            add("arith:let", "compile", "let p = %s\nlet q = %s\nfrom t | derive x = p %s q | filter x != 3" % (a, b, op), target="sql.generic")
     for un in ("-", "!", "+"):
         for a in ARITH_VALS:
             add("arith:src", "compile", "from t | derive x = %s(%s)" % (un, a), target="sql.generic")
